@@ -526,3 +526,31 @@ def check_stale_derived(ctx, rule, clsname, clause=''):
         else:
             ctx.holds(rule, fi0, st, 'derived attributes are not read by the methods of the class', n0.lineno, clause=clause)
     return n_ob
+
+
+
+def derived_strategy_consts(repo, ci, strat):
+    """``self.<attr>`` -> defining expression for the attributes that _compile computes (as a
+    conditional, a comparison or a boolean combination of declared options) on the path that
+    installs the strategy, and that nothing assigns at run time: compile-time constants that
+    stand for their definition wherever the strategy reads them"""
+    out = {}
+    defs = strat.get('defs', {}) or {}
+    if not defs:
+        return out
+    written = set()
+    for c in set(repo.mro(ci)) | set(repo.subclasses(ci.name)):
+        for name, fi in c.methods.items():
+            if name in ('_compile', '__init__'):
+                continue
+            for n in ast.walk(fi.node):
+                if isinstance(n, ast.Attribute) and isinstance(n.ctx, (ast.Store, ast.Del)) and isinstance(n.value, ast.Name) and n.value.id == 'self':
+                    written.add(n.attr)
+                elif isinstance(n, ast.Call) and isinstance(n.func, ast.Name) and n.func.id in ('setattr', 'delattr') and n.args and isinstance(n.args[0], ast.Name) and n.args[0].id == 'self':
+                    return {}
+    for a, v in defs.items():
+        if a in written:
+            continue
+        if any(isinstance(x, (ast.IfExp, ast.Compare, ast.BoolOp)) for x in ast.walk(v)) and not any(isinstance(x, (ast.Lambda, ast.Call)) and not (isinstance(x, ast.Call) and isinstance(x.func, ast.Name) and x.func.id in ('len', 'int', 'bool', 'isinstance')) for x in ast.walk(v)):
+            out['self.%s' % a] = v
+    return out
